@@ -26,7 +26,17 @@ S3  == {TrStk(k, es) : k \in {"AND", "LIST", "BASIC"}, es \in SeqsUpTo(A3, 2)}
 SF  == {[TrStk(k, <<X, [c EXCEPT !.fold = f2, !.form = fm]>>) EXCEPT !.fold = f1] :
           k \in {"AND", "LIST"}, c \in S1s, f1 \in BOOLEAN, f2 \in BOOLEAN, fm \in {"native", "alias", "ptr"}}
 
-Trees == CASE FAMILY = "c04d1" -> S1 [] FAMILY = "c04d2" -> S2 [] FAMILY = "c04d3" -> S3 [] FAMILY = "c04fold" -> SF [] OTHER -> {}
+\* a Condition (in any form) holding a Stack in any form, and a Condition holding such a Condition
+SFC == {TrStk(k, <<X, [TrCnd(<<"k">>, "Ge", [TrStk("OR", <<X, N>>) EXCEPT !.form = fm]) EXCEPT !.form = fc]>>) :
+          k \in {"AND", "LIST"}, fm \in {"native", "alias", "walias", "ptr"}, fc \in {"native", "alias", "walias", "ptr"}}
+   \cup {TrStk("AND", <<TrCnd(<<"o">>, "Eq", [TrCnd(<<"k">>, "Le", [TrStk("LIST", <<N>>) EXCEPT !.form = fm]) EXCEPT !.form = fc])>>) :
+          fm \in {"native", "alias", "ptr"}, fc \in {"native", "alias", "ptr"}}
+\* Conditions that are storable but not valid by the built-in standard (no keyword): still rebuilt with the same parts
+SInv == {TrStk(k, <<c, X>>) : k \in {"AND", "BASIC"},
+                              c \in {TrCnd(<<>>, "Ge", TrStk("AND", <<X, N>>)), TrCnd(<<>>, "Eq", KV), TrCnd(<<>>, "Ne", N),
+                                     TrCnd(<<"o">>, "Eq", TrCnd(<<>>, "Le", TrStk("LIST", <<X>>)))}}
+
+Trees == CASE FAMILY = "c04inv" -> SInv [] FAMILY = "c04d1" -> S1 [] FAMILY = "c04d2" -> S2 [] FAMILY = "c04d3" -> S3 [] FAMILY = "c04fold" -> SF \cup SFC [] OTHER -> {}
 
 -----------------------------------------------------------------------------
 (* junk for C16 *)
